@@ -25,7 +25,7 @@ ASSUMPTIONS = ['thread kinds are excluded from the alive-phase read (documented 
 SHRINK = 'none'
 TIME_BUDGET = {'quick': 170, 'thorough': 1700}
 REQUIRED = {'quick': {'ending:terminate': 60, 'ending:raise': 60, 'chain>1': 80, 'paused_read': 40, 'first_read:user_state': 100, 'restart': 20, 'inplace_mutation': 60, 'same_object_assigned_back': 40, 'death_observed_without_worker_api': 8, 'late_landing_reached': 40},
-            'thorough': {'ending:terminate': 600, 'ending:raise': 600, 'chain>1': 800, 'paused_read': 400}}
+            'thorough': {'ending:terminate': 180, 'ending:raise': 180, 'chain>1': 250, 'paused_read': 130}}
 
 _VALS = ['none', 'zero', 'str', 'list', 'dict', 'point', 5, 6, 7]
 _ASSIGN = _VALS + ['inplace', 'inplace', 'list', 'dict']
